@@ -82,7 +82,11 @@ CLAIMS = {
         design_ref="5 (C06)"),
     "C08": dict(
         technique="Coq proof (mode_char / mode_chars frame and effect lemmas, rank sufficiency, refusal inertness) + exhaustive letter x sign x rank sweep against the real server with an announcement-replay oracle",
-        text="CHANGE ONLY THROUGH MODE, over every event of every connection (C08_settings_change_only_by_mode; settings frame proved through all 41 commands, registration, teardown and KILL delivery): a channel that exists before and after a step has the same flags, key, limit, ban, exception and invite-exception lists unless the event is a registered connection's MODE line naming that very channel - JOIN (incl. comma lists that create other channels), PART, KICK, NICK, TOPIC, INVITE and every way a session ends leave the settings of every surviving channel alone (C08_other_commands_keep_settings per command). Likewise the member ranks (C08_ranks_change_only_by_mode): a user who is a member of a channel before and after a step under the same nick holds the same five rank flags unless the event is a MODE line naming that channel. Theorems (props/C08.v) for ALL channels, ranks and mode strings: which rank each letter requires, that a refused letter changes nothing, that an accepted flag/rank/list/param letter "
+        text="ONLY BY MEMBERS OF SUFFICIENT RANK, for every history (C08_settings_changed_only_by_ranked_mode, C08_ranks_changed_only_by_ranked_mode): over every event of every connection a channel that "
+             "exists before and after the step has the same flags, key, limit and mask lists, and every member who stays the same rank flags, unless the event is a MODE line naming that channel sent by a "
+             "registered connection that - before the line - was a member holding half-operator rank or above; a member below that changes nothing of the channel record whatever the mode string "
+             "(C08_below_half_operator_changes_nothing). "
+             "CHANGE ONLY THROUGH MODE, over every event of every connection (C08_settings_change_only_by_mode; settings frame proved through all 41 commands, registration, teardown and KILL delivery): a channel that exists before and after a step has the same flags, key, limit, ban, exception and invite-exception lists unless the event is a registered connection's MODE line naming that very channel - JOIN (incl. comma lists that create other channels), PART, KICK, NICK, TOPIC, INVITE and every way a session ends leave the settings of every surviving channel alone (C08_other_commands_keep_settings per command). Likewise the member ranks (C08_ranks_change_only_by_mode): a user who is a member of a channel before and after a step under the same nick holds the same five rank flags unless the event is a MODE line naming that channel. Theorems (props/C08.v) for ALL channels, ranks and mode strings: which rank each letter requires, that a refused letter changes nothing, that an accepted flag/rank/list/param letter "
              "has exactly its documented effect on the channel and nothing else, and that outsiders are refused; 'exactly as announced' for the flags: for any number of groups, letters and sign switches, a flag letter in the announced '+' group is set in the new channel, one in the '-' group is clear, none is in both, a flag not announced is as it was, and the line goes to every member (C08_flags_as_announced). The parameter part, letter by letter: an accepted rank letter appends exactly ' <sign><letter> <nick>' and touches neither flag group, one the actor may not use or naming a non-member announces and changes nothing "
              "(C08_rank_announced, C08_rank_silent); an accepted ban / exception / invite-exception edit changes exactly that list by exactly the normalised mask and appends exactly ' <sign><letter> <mask>', a refused one gives 482, announces nothing and leaves the channel record as it is "
              "(C08_list_announced, C08_list_refused). That the assembled string (with the +l/+k entries, which are edited in place) replays to the new channel is tied to the effect on every run by replaying the broadcast "
